@@ -508,6 +508,7 @@ def run(repo='/repo', tier='quick'):
     c07o(db, res)
     c07p(db, res)
     c07q(db, res)
+    c07r(db, res)
     return res
 
 
@@ -695,3 +696,32 @@ def c07q(db, res):
     res.check(bad is None and n > 0, 'C07.q', 'htp_gzip_decompressor_restart:gives-up-early', 'all %d give-up paths with retries left are zlib initialisation failures or the end of the ladder' % n,
               'htp_gzip_decompressor_restart gives up with retries left because of a test of the payload (%s): a stream that inflate would have accepted on the next rung is passed through undecoded' % (' '.join(bad[1]) if bad else ''), (bad[0] if bad else st).get('loc', f.loc))
     res.floor('C07.q', 'give-up paths of the retry ladder', n, 3)
+
+
+def c07r(db, res):
+    """get_token(in, in_len, seps, &tok, &tok_len) skips the separators in front of the token and hands back where the token
+    starts. The caller's next scan has to start behind THAT token: an advance measured from where the previous scan started
+    lands inside the token whenever more than one separator preceded it, the tail of the token is scanned as a coding of its
+    own (an unknown one, which still counts as a layer) or the same coding is found twice - more layers than were announced."""
+    res.rule('C07.r', 'each coding token is scanned once: in every loop that calls get_token(input, ..., &tok, &tok_len) the advance of the input cursor is computed from the token pointer the scanner returned, not from the position where the scan started')
+    n = 0
+    for name, f in sorted(db.fn.items()):
+        if not f.blocks:
+            continue
+        sites = f.calls('get_token')
+        if not sites:
+            continue
+        for b, i, c in sites:
+            a0, a3 = strip(c['args'][0]), strip(c['args'][3])
+            if a0.get('k') != 'var' or not (a3.get('k') == 'un' and a3['op'] == '&' and strip(a3['e']).get('k') == 'var'):
+                continue
+            inp, tok = a0['name'], strip(a3['e'])['name']
+            adv = [(bb, w) for bb, ii, st in f.stmts() for w in nodes(st, lambda y: y.get('k') == 'assign' and strip(y['l']).get('k') == 'var' and strip(y['l'])['name'] == inp)
+                   if any(bb in body and b in body for h, body in C.loops(f)) or True]
+            adv = [(bb, w) for bb, w in adv if w['op'] in ('+=', '=') and not (w['op'] == '=' and bb not in {x for h, body in C.loops(f) if b in body or h == b for x in body})]
+            for bb, w in adv:
+                n += 1
+                uses_tok = any(strip(v).get('name') == tok for v in nodes(w['r'], lambda y: y.get('k') == 'var'))
+                res.check(uses_tok, 'C07.r', '%s:%s-advance' % (name, inp), 'the cursor moves to the end of the token the scanner returned',
+                          '%s advances `%s` by %s, measured from where the scan started, although get_token() skips leading separators and returns the token in `%s`: with two separator characters in front of a coding the next scan starts inside it ("gzip ,  deflate" also yields "te"; "deflate,        gzip" yields gzip twice - three layers for two codings)' % (name, inp, S(w['r']), tok), w['loc'])
+    res.floor('C07.r', 'advances of a get_token input cursor', n, 1)
